@@ -883,6 +883,17 @@ func (e *Exec) arith(st *State, op token.Token, l, r Term, t types.Type, rt type
 		}
 		return Div(l, p)
 	}
+	if (l.Sort == SInt && r.Sort == SBV64 && strings.HasPrefix(r.S, "((_ int2bv 64) ")) ||
+		(r.Sort == SInt && l.Sort == SBV64 && strings.HasPrefix(l.S, "((_ int2bv 64) ")) {
+		// a number converted to uint64 meets a numeric (ints) variable: stay mathematical
+		unwrap := func(t Term) Term {
+			if t.Sort == SBV64 {
+				return Term{t.S[len("((_ int2bv 64) ") : len(t.S)-1], SInt}
+			}
+			return t
+		}
+		l, r = unwrap(l), unwrap(r)
+	}
 	if l.Sort == SBV64 || r.Sort == SBV64 {
 		l, r = e.toSort(l, SBV64), e.toSort(r, SBV64)
 		switch op {
